@@ -11,6 +11,7 @@
   include_parse (core/directives_include.cpp) does with `tokens.in`.
 -/
 import NakenVerif.Macro.Define
+import NakenVerif.Generated.CpuList
 
 namespace NakenVerif.Macro
 
@@ -45,6 +46,16 @@ def str (s : String) : List Ch := s.toList.map fun c => (c.toNat : Int)
 def dataWords : List (List Ch) :=
   ["org", "db", "dc8", "ascii", "asciiz", "dw", "dc16", "dl", "dc32", "dd", "dc64", "dq",
    "varuint", "varuint32", "resb", "resw"].map str
+
+/-- directive names that parse_directives() knows and this model does not follow -/
+def otherDirectives : List (List Ch) :=
+  ["ifdef", "ifndef", "if", "endif", "else", "repeat", "endr", "binfile", "code", "bss", "msp430_cpu4",
+   "pragma", "device", "set", "export", "entry_point", "align", "align_bits", "align_bytes", "scope", "ends",
+   "func", "endf", "low_address", "high_address", "big_endian", "little_endian", "list", "data_fill", "end"].map str
+
+/-- `.name` selects a CPU (strcasecmp over cpu_list) -/
+def isCpuName (name : List Ch) : Bool :=
+  cpuList.any fun c => str c.name.toLower = name.map lowerC
 
 /-- the recording parse_instruction: tokens up to the end of the line -/
 def recLoop (env : Env) : Nat → Tok → AsmSt → Prog StmtRes
@@ -83,7 +94,8 @@ def directive (n : Nat) (st : AsmSt) : Prog StmtRes :=
           if f.fatal then .ret (.stop .fatal st)
           else if f.fuel then .ret (.stop .fuel st)
           else .ret (.incl (cstr f.text) st)
-      else .ret (.unmodelled st)
+      else if otherDirectives.contains name ∨ dataWords.contains name ∨ isCpuName name then .ret (.unmodelled st)
+      else .ret (.done (-1) st)                                               -- "Unknown directive"
 
 /-- one pass of the `while (true)` loop of AsmContext::assemble -/
 def stmt (n : Nat) (st : AsmSt) : Prog StmtRes :=
@@ -113,6 +125,11 @@ def stmt (n : Nat) (st : AsmSt) : Prog StmtRes :=
             else if t2.fuel then .ret (.stop .fuel st)
             else if cstr t2.text = str "equ" then
               (equLine st.env word n).bind fun r => .ret (defResult st r)
+            else if cstr t2.text = [] then
+              -- tokens_push() of an empty token leaves the push-back slot empty: the back end
+              -- reads the next token from the stream
+              (tokensGet st.env n).bind fun t3 =>
+                recLoop st.env n t3 ({ st with out := (-2, word) :: st.out }.addTok t3)
             else recLoop st.env n t2 { st with out := (-2, word) :: st.out }
       else .ret (.done (-1) st)                                                 -- unexpected token
 
